@@ -194,9 +194,24 @@ func runC11Visit(c *Ctx) {
 	// the per-node step: RangeSearch's recursive closure, or a self-recursive
 	// function it calls (the same step written as a named function)
 	var rec *ssa.Function
-	if len(rs.AnonFuncs) > 0 {
-		rec = rs.AnonFuncs[0]
-	} else {
+	hasNodeParam := func(f *ssa.Function) bool {
+		for _, par := range f.Params {
+			if st, ok := deref(par.Type()).Underlying().(*types.Struct); ok && par.Type() != deref(par.Type()) {
+				for k := 0; k < st.NumFields(); k++ {
+					if _, isArr := st.Field(k).Type().Underlying().(*types.Array); isArr {
+						return true
+					}
+				}
+			}
+		}
+		return false
+	}
+	for _, an := range rs.AnonFuncs {
+		if rec == nil && hasNodeParam(an) {
+			rec = an
+		}
+	}
+	if rec == nil {
 		eachCall(rs, func(ci ssa.CallInstruction) {
 			if cal := staticCallee(ci); cal != nil && cal.Blocks != nil && rec == nil {
 				eachCall(cal, func(c2 ssa.CallInstruction) {
@@ -214,7 +229,24 @@ func runC11Visit(c *Ctx) {
 		return
 	}
 	// field names are resolved by type, so that renaming them changes nothing
-	nodeT, _ := deref(rec.Params[0].Type()).Underlying().(*types.Struct)
+	// the node is the first parameter that points at a struct holding an entry array (a
+	// walker object or other context may come before it)
+	nodeIdx := 0
+	for i, par := range rec.Params {
+		if st, ok := deref(par.Type()).Underlying().(*types.Struct); ok && par.Type() != deref(par.Type()) {
+			hasArr := false
+			for k := 0; k < st.NumFields(); k++ {
+				if _, isArr := st.Field(k).Type().Underlying().(*types.Array); isArr {
+					hasArr = true
+				}
+			}
+			if hasArr {
+				nodeIdx = i
+				break
+			}
+		}
+	}
+	nodeT, _ := deref(rec.Params[nodeIdx].Type()).Underlying().(*types.Struct)
 	if nodeT == nil {
 		c.Errorf("anchor: first parameter of %s is not a node", FuncName(rec))
 		return
@@ -264,10 +296,26 @@ func runC11Visit(c *Ctx) {
 		}
 		fvs = append(fvs, k4val{kind: 3, s: k})
 	}
-	recArgs := []k4val{{kind: 3, s: "$0"}}
-	for _, par := range rec.Params[1:] {
-		if _, isBox := par.Type().Underlying().(*types.Struct); isBox {
+	var recArgs []k4val
+	ctxMem := map[string]k4val{}
+	for i, par := range rec.Params {
+		if i == nodeIdx {
+			recArgs = append(recArgs, k4val{kind: 3, s: "$0"})
+		} else if _, isBox := par.Type().Underlying().(*types.Struct); isBox {
 			recArgs = append(recArgs, k4val{kind: 3, s: "fv:box"})
+		} else if st, ok := deref(par.Type()).Underlying().(*types.Struct); ok && par.Type() != deref(par.Type()) {
+			// a context object (the query box and the callback kept in a struct): its
+			// fields stand for what a closure would have captured
+			obj := "ctx:" + par.Name()
+			recArgs = append(recArgs, k4val{kind: 3, s: obj})
+			for k := 0; k < st.NumFields(); k++ {
+				fk := obj + "." + canonFieldName(st.Field(k))
+				if _, isBox := st.Field(k).Type().Underlying().(*types.Struct); isBox {
+					ctxMem[fk] = k4val{kind: 3, s: "fv:box"}
+				} else {
+					ctxMem[fk] = k4val{kind: 3, s: "fv:" + st.Field(k).Name()}
+				}
+			}
 		} else {
 			recArgs = append(recArgs, k4val{kind: 3, s: "fv:" + par.Name()})
 		}
@@ -304,6 +352,9 @@ func runC11Visit(c *Ctx) {
 		for round := 0; round < 6; round++ {
 			it.calls = nil
 			it.mem = map[string]k4val{}
+			for k, v := range ctxMem {
+				it.mem[k] = v
+			}
 			m.Missing = map[string]bool{}
 			_, err = it.call(rec, recArgs, fvs)
 			if err == nil || len(m.Missing) == 0 {
@@ -334,7 +385,9 @@ func runC11Visit(c *Ctx) {
 		for _, cl := range it.calls {
 			if strings.HasPrefix(cl, extName(rec)+"(") {
 				a := splitTopLevel(strings.TrimSuffix(strings.TrimPrefix(cl, extName(rec)+"("), ")"))
-				got = append(got, "recurse("+strings.TrimPrefix(a[0], "$0.")+")")
+				if nodeIdx < len(a) {
+					got = append(got, "recurse("+strings.TrimPrefix(a[nodeIdx], "$0.")+")")
+				}
 			}
 		}
 		if strings.Join(sortedCopy(got), " ") != strings.Join(sortedCopy(want), " ") {
